@@ -144,21 +144,31 @@ impl CFormatSpec {
         T: Into<char> + Copy,
         I: Iterator<Item = T>,
     {
+        Self::parse_with_type_index(iter).map(|(spec, _)| spec)
+    }
+
+    /// Like `parse`; also returns the index of the conversion type character.
+    fn parse_with_type_index<T, I>(iter: &mut ParseIter<I>) -> Result<(Self, usize), ParsingError>
+    where
+        T: Into<char> + Copy,
+        I: Iterator<Item = T>,
+    {
         let mapping_key = parse_spec_mapping_key(iter)?;
         let flags = parse_flags(iter);
         let min_field_width = parse_quantity(iter)?;
         let precision = parse_precision(iter)?;
         consume_length(iter);
-        let (format_type, format_char) = parse_format_type(iter)?;
+        let (format_type, format_char, type_index) = parse_format_type(iter)?;
 
-        Ok(CFormatSpec {
+        let spec = CFormatSpec {
             mapping_key,
             flags,
             min_field_width,
             precision,
             format_type,
             format_char,
-        })
+        };
+        Ok((spec, type_index))
     }
 
     fn compute_fill_string(fill_char: char, fill_chars_needed: usize) -> String {
@@ -457,7 +467,9 @@ where
     }
 }
 
-fn parse_format_type<T, I>(iter: &mut ParseIter<I>) -> Result<(CFormatType, char), ParsingError>
+fn parse_format_type<T, I>(
+    iter: &mut ParseIter<I>,
+) -> Result<(CFormatType, char, usize), ParsingError>
 where
     T: Into<char>,
     I: Iterator<Item = T>,
@@ -491,7 +503,7 @@ where
         'a' => CFormatType::String(CFormatConversion::Ascii),
         _ => return Err((CFormatErrorType::UnsupportedFormatChar(c), index)),
     };
-    Ok((format_type, c))
+    Ok((format_type, c, index))
 }
 
 fn parse_quantity<T, I>(iter: &mut ParseIter<I>) -> Result<Option<CFormatQuantity>, ParsingError>
@@ -717,10 +729,20 @@ impl CFormatString {
                                 CFormatPart::Literal(std::mem::take(&mut literal)),
                             ));
                         }
-                        let spec = CFormatSpec::parse(iter).map_err(|err| CFormatError {
-                            typ: err.0,
-                            index: err.1,
-                        })?;
+                        let (spec, type_index) =
+                            CFormatSpec::parse_with_type_index(iter).map_err(|err| {
+                                CFormatError {
+                                    typ: err.0,
+                                    index: err.1,
+                                }
+                            })?;
+                        if spec.format_char == 'b' {
+                            // `%b` is a conversion of bytes templates only
+                            return Err(CFormatError {
+                                typ: CFormatErrorType::UnsupportedFormatChar('b'),
+                                index: type_index,
+                            });
+                        }
                         parts.push((index, CFormatPart::Spec(spec)));
                         if let Some(&(index, _)) = iter.peek() {
                             part_index = index;
